@@ -1,5 +1,6 @@
 import GnoVerif.Proofs.C30Hash
 import GnoVerif.Proofs.C30Proof
+import GnoVerif.Proofs.C30Tidy
 /-!
 # C30 — the IAVL tree is a correct versioned, provable map
 
@@ -41,7 +42,8 @@ What is a theorem here, clause by clause:
   proof bytes and forged absence proofs).
 * **every history … version deletions** — the version bookkeeping of the unchanged code
   violates the statement: `versions_readable_statement` is refuted on a concrete
-  history (`ghost_version_counterexample`; finding `ghost-version`).
+  history (`ghost_version_counterexample`; finding `ghost-version`), and proved under the
+  exact guard that excludes the finding (`versions_readable_partial`).
 
 Everything is parametric in the hash function `H`.
 -/
@@ -444,11 +446,7 @@ def ghostOps : List Op :=
   [.save, .set [0x61] (some [1]), .save, .set [0x62] (some [2]), .save, .set [0x62] (some [3]), .save, .save,
    .delto 3, .reopen]
 
-/-- NOT proved (residual): `versions_readable_statement` restricted to histories in which no
-database key `(v, 1)` outlives its version (`db.stuck = []` throughout).  It needs a
-contiguity invariant of the root table and of the two version caches; it is covered by the
-correspondence run and the oracle only.  What IS proved about the unrestricted model is the
-refutation below. -/
+/-- The statement fails on the unchanged code (finding `ghost-version`): -/
 theorem ghost_version_counterexample : ¬ versions_readable_statement := by
   intro h
   have hex : ((St.run (fun _ => []) (St.init 0) ghostOps).versionExists 3).1 = true := by rfl
@@ -466,5 +464,29 @@ theorem ghost_version_witness :
     (St.run (fun _ => []) (St.init 0) ghostOps).getImmutable 3 = .error .noVersion ∧
     ((St.run (fun _ => []) (St.init 0) ghostOps).deleteVersionsTo 4).1 = .error .noVersion :=
   ⟨by rfl, by rfl, by rfl, by rfl⟩
+
+/-- What IS true of the version bookkeeping, under the exact guard that excludes the finding: if
+at no point of the history a database key `(v, 1)` outlives its version (`St.StuckFree`: that
+happens only when a version whose whole tree is one leaf is pruned while the next version keeps
+the leaf as a child), then after the history the bookkeeping is consistent (`St.Tidy`: the root
+table is a contiguous interval of versions, nothing is pending, the caches are unset or exact,
+the tree sits on a stored version) and every version `VersionExists` reports can be read —
+restarts (`reopen`), overwriting loads, idle versions and prunings included.  `0 ≤ iv` is the
+`uint64` type of `Options.InitialVersion`. -/
+theorem versions_readable_partial (H : Bytes → Bytes) (iv : Int) (hiv : 0 ≤ iv) (ops : List Op)
+    (hguard : ∀ pre, pre <+: ops → St.StuckFree (St.run H (St.init iv) pre)) (v : Int)
+    (hex : ((St.run H (St.init iv) ops).versionExists v).1 = true) :
+    ∃ r, (St.run H (St.init iv) ops).getImmutable v = .ok r ∧ WFo r :=
+  have ht := St.run_tidy H ops (St.init iv) (St.init_tidy hiv) hguard
+  let ⟨r, hr⟩ := St.tidy_readable ht v hex
+  ⟨r, hr, (history_wf H iv ops).2.2 v r hr⟩
+
+/-- the guard is satisfiable by a history that saves, prunes and restarts: two keys from the
+first version on, so no root is ever a single leaf -/
+example : ∀ pre, pre <+: ([.set [0x61] (some [1]), .set [0x62] (some [2]), .save, .set [0x62] (some [3]), .save,
+      .save, .delto 2, .reopen] : List Op) →
+    St.StuckFree (St.run (fun _ => []) (St.init 0) pre) :=
+  fun pre hpre => St.stuckFree_of_B
+    (St.prefixes_of_all (fun p => St.stuckFreeB (St.run (fun _ => []) (St.init 0) p)) _ (by rfl) pre hpre)
 
 end GnoVerif.C30
